@@ -31,7 +31,7 @@ H = "filters::network::NetworkFilterMaskHelper::"
 
 
 def check(run):
-    for cfg in ("A", "B"):
+    for cfg in run.cfgs("A", "B"):
         F = run.facts(cfg)
         run.guard("C01.1.token-source", cfg, lambda: rule_store(run, F, cfg))
         run.guard("C01.1.token-source", cfg + "/probe", lambda: rule_probe(run, F, cfg))
